@@ -5,7 +5,7 @@
 cd "$(dirname "$0")"
 export CARGO_NET_OFFLINE=true
 mkdir -p .cache ocaml/gen evidence replays
-echo "== coq"; python3 coq/build.py -j 16 --timeout 2400 -k 2>&1 | tail -n 40
+echo "== coq"; python3 coq/build.py -j 16 --timeout 900 -k 2>&1 | tail -n 40
 echo "== harness"
 for b in harness/src/bin/*.rs; do
   n=$(basename "$b" .rs)
